@@ -6,6 +6,7 @@ import (
 	"encoding/json"
 	"fmt"
 	"os"
+	"regexp"
 	"strings"
 	"time"
 
@@ -22,18 +23,24 @@ func init() {
 		Level: "model_checking",
 		Technique: "part E: bounded-exhaustive enumeration of file/database configuration mixes through the real loadTasks against a reference merge function; " +
 			"part S: stateless model checking of the real Manager.Run/Restart/runTask + web.Handler.SaveIntegration under the controlled scheduler " +
-			"(instrumented code, fake Postgres, simulated node): all interleavings of start-up, runner steps and restart requests up to a preemption bound",
+			"(instrumented code, fake Postgres, simulated node): all interleavings of start-up, generations and restart requests up to a preemption bound, " +
+			"with runner/generation attribution of every controlled thread",
 		Rule: "E: integration slot A in {absent, file, database, both-with-different-content} x enabled flags x source-reference lists over {s1, s2, s1+s2, unknown, s1+unknown} " +
-			"x slot B (4 shapes; thorough 8) x source placements (s1 in file/database/both, s2 absent/file/database/both) x batch/concurrency set or unset x database rows in documented or dashboard-stored form; distinct = distinct mix. " +
-			"S: jobs = topology {1 ending task, 1 never-ending task, name clash + disabled row; thorough: two sources} x scenario {save racing with start-up, save after start-up, save+restart back to back, " +
-			"two concurrent requests (thorough), save when the first generation is quiescent, failed restart then repaired restart}; per job every schedule with <= 2 preemptions (thorough 3), all free choices. " +
-			"An S execution is non-trivial when a restart request ran and at least two generations loaded.",
+			"x slot B (4 shapes; thorough 8) x source placements (s1 in file/database/both, s2 absent/file/database/both) x batch/concurrency set or unset x database rows in documented or dashboard-stored form; distinct = distinct mix; non-trivial = at least one task or a start-up error expected. " +
+			"S: jobs = topology {1d: one ending task; 1l: one never-ending task; 1c: name clash + disabled database row; thorough also 2d/2l: two sources, one only in the database} x scenario " +
+			"{early: save request racing with start-up; after: save after start-up; b2b: save then restart from one thread; two: save and restart from two threads; late: save when the first generation is quiescent; " +
+			"fail: save of an integration with an unknown source, row removed, restart}; per job every schedule within the job's preemption bound (quick: 2, early/two 1; thorough: 3, early/two 2 or 1), all free choices, " +
+			"inside the window from the creation of the first restarter until the last request returned. Reductions: a generation (Run thread, its runners, their goroutines) is one thread group, switches inside it are not enumerated; " +
+			"helper goroutines (head poller, update notifier) are never switched to preemptively; while a runner runs, switches to restarter/Run threads are offered at its SQL batches and its select only. " +
+			"An S execution is non-trivial when a restart request ran and at least two generations loaded; distinct = distinct (job, choice sequence).",
 		Assumptions: []string{
-			"fake Postgres (h/simpg) and simulated node (h/simeth) as in C01; chain of two blocks, stop=2 on ending tasks",
+			"fake Postgres (h/simpg) and simulated node (h/simeth) as in C01; static chain of two blocks, stop=2 on ending tasks, poll_duration 1ms",
 			"the table of a database-stored integration exists (shovel never creates it); database rows are valid integrations",
 			"plain field accesses are not scheduling points: a thread runs atomically from one visible operation (lock, channel op, spawn, sleep, SQL batch, RPC) to the next; " +
-				"in particular the window between Run's close(ec) and `tm.restart = make(...)` cannot be entered by another thread in this model (the data race itself is C18's subject)",
+				"in particular the window between Run's close(ec) and `tm.restart = make(...)` cannot be entered by another thread in this model (the data race on tm.restart itself is C18's subject)",
 			"after a restart that FAILED (start-up error) the set of running tasks is not judged; only that a later restart neither panics nor hangs",
+			"Manager.Updates has no consumer (the dashboard's PushUpdates loop is not part of the model): update notifiers always take their default branch",
+			"interleavings of runners of the SAME generation (different pairs, shared RPC client cache) are C08/C18 territory and not enumerated here",
 		},
 		Budget:        map[string]time.Duration{"quick": 100 * time.Second, "thorough": 800 * time.Second},
 		MinNontrivial: 1000,
@@ -44,12 +51,14 @@ func init() {
 }
 
 func run(c *fw.Ctx) {
-	sRun(c)
+	eRun(c) // cheap and complete; first, so that a time cap in part S cannot skip it
 	if c.Res.HarnessErr != "" || !c.Res.Exhaustive {
 		return
 	}
-	eRun(c)
+	sRun(c)
 }
+
+var grepHits int
 
 func sRun(c *fw.Ctx) {
 	jobs := sJobs(c.Thorough())
@@ -87,7 +96,11 @@ func sRun(c *fw.Ctx) {
 		vrt.Contentions = 0
 		var overlap, early int64
 		st := dfsExplore(b, j.Part, j.Parts, func(r *dfsRun) bool {
-			res := sExec(j, p, r, states)
+			ss := states
+			if !r.Mine(j.Part) {
+				ss = nil // shallow executions are counted (states included) by slice 0 only
+			}
+			res := sExec(j, p, r, ss)
 			if res.harness != "" {
 				c.HarnessError("job %+v choices %v: %s", j, r.Trimmed(), res.harness)
 				return false
@@ -111,6 +124,12 @@ func sRun(c *fw.Ctx) {
 					}
 					c.HarnessError("HARNESS-NONDETERMINISM self-check job %+v choices %v: traces differ at %d:\n A: %v\n B: %v", j, r.Trimmed(), n, res.trace[lo:min(n+6, len(res.trace))], res2.trace[lo:min(n+6, len(res2.trace))])
 					return false
+				}
+			}
+			if g := os.Getenv("C20_GREP"); g != "" && grepHits < 3 {
+				if ok, _ := regexp.MatchString(g, res.outcome+" | "+strings.Join(res.trace, " ")); ok {
+					grepHits++
+					fmt.Fprintf(os.Stderr, "GREP job %+v outcome %s\n deviations %v\n requests %s\n trace %s\n\n", j, res.outcome, r.Deviations(), opsString(res.ops), strings.Join(res.trace, " "))
 				}
 			}
 			if os.Getenv("C20_POINTS") != "" && c.Res.Evaluations == 0 {
